@@ -2,6 +2,8 @@
 # usage: run.sh <ID> <quick|thorough> [extra mc args]
 # Rebuilds the harness against /repo's current working tree (hooks on: -tags verif)
 # and runs the check. Exit 0 = held, 1 = VIOLATION line(s) printed, 2 = harness error.
+# Development: MC_DEV=1 builds only ./cmd/mc-<id> (one check) so that a package another
+# author is editing cannot break this build; MC_WORKERS=n caps the worker processes.
 set -u
 ID="$1"; TIER="${2:-quick}"; shift; shift || true
 export GOFLAGS=-mod=mod GOPROXY=off GOSUMDB=off GOTOOLCHAIN=local
@@ -9,8 +11,12 @@ export GOCACHE=/verif/.cache/go-build
 export VERIF_DIR=/verif
 mkdir -p /verif/.cache /verif/.bin
 cd /verif/mc || exit 2
-cp /repo/go.sum go.sum 2>/dev/null
-if ! go build -tags verif -o /verif/.bin/mc ./cmd/mc 2>/verif/.cache/build.log; then
-  echo "HARNESS-ERROR: build failed"; cat /verif/.cache/build.log; exit 2
+cmp -s /repo/go.sum go.sum || cp /repo/go.sum go.sum
+PKG=./cmd/mc; BIN=/verif/.bin/mc
+lid=$(echo "$ID" | tr 'A-Z' 'a-z')
+if [ "${MC_DEV:-}" = 1 ] && [ -d "./cmd/mc-$lid" ]; then PKG=./cmd/mc-$lid; BIN=/verif/.bin/mc-$lid; fi
+if ! go build -tags verif -o "$BIN.$$" "$PKG" 2>/verif/.cache/build-$ID.log; then
+  echo "HARNESS-ERROR: build failed"; cat /verif/.cache/build-$ID.log; rm -f "$BIN.$$"; exit 2
 fi
-exec /verif/.bin/mc check "$ID" --tier "$TIER" "$@"
+mv -f "$BIN.$$" "$BIN"
+exec "$BIN" check "$ID" --tier "$TIER" "$@"
